@@ -198,7 +198,9 @@ def check_obligations(ctx):
     for b in files:
         vo = os.path.join(COQ, 'Properties', f'{b}.vo')
         v = os.path.join(COQ, 'Properties', f'{b}.v')
-        if os.path.exists(vo) and os.path.getmtime(vo) >= os.path.getmtime(v):
+        # (a stale .vo left by an earlier build does not count: when make fails for
+        # these targets none of them is taken as checked)
+        if rc == 0 and os.path.exists(vo) and os.path.getmtime(vo) >= os.path.getmtime(v):
             built.append(b)
         else:
             ctx.obligation_broken(f'Properties/{b}.v does not build', out)
